@@ -98,6 +98,24 @@ func (g *Gen) ArityVariant(n int) string {
 	return fnames[g.Focus-1].n + "(" + strings.Join(args, ", ") + ")"
 }
 
+// CollisionCall returns a call of the focus function with the declared number of arguments, all
+// literals from a tiny pool of strings that are prefixes, suffixes and concatenations of each other
+// (and numbers that read alike): many different argument tuples of one function in one process, so
+// that anything remembered per function under too coarse a key (the arguments glued together, only
+// the first argument, a length) is used for the wrong tuple sooner or later.
+func (g *Gen) CollisionCall() string {
+	if g.Focus <= 0 || g.Focus > len(fnames) {
+		return ""
+	}
+	f := fnames[g.Focus-1]
+	pool := []string{"'a'", "'b'", "'ab'", "'ba'", "''", "'1'"} // (small on purpose: with five or six strings most cases contain two tuples that glue to the same text)
+	args := make([]string, f.arity)
+	for i := range args {
+		args[i] = pool[g.T.Draw(len(pool))]
+	}
+	return f.n + "(" + strings.Join(args, ", ") + ")"
+}
+
 // NumFuncs is the number of function names Func chooses from (for Gen.Focus).
 func NumFuncs() int { return len(fnames) }
 
